@@ -13,7 +13,7 @@ GUARD = "OUSNIUS_NIFLY_VERIF"
 BC_FLAGS = ["-std=c++17", "-O1", "-ffp-contract=off", "-fno-vectorize", "-fno-slp-vectorize", "-fno-unroll-loops",
             "-D" + GUARD, "-Wno-pragma-once-outside-header", "-w"]
 NATIVE_FLAGS = ["-std=c++17", "-O1", "-gline-tables-only", "-ffp-contract=off", "-fsanitize=address,undefined",
-                "-fno-sanitize=vptr,function,float-cast-overflow,float-divide-by-zero",
+                "-fno-sanitize=vptr,function,float-cast-overflow,float-divide-by-zero,alignment",
                 "-fno-omit-frame-pointer", "-D" + GUARD, "-w"]
 FAST_FLAGS = ["-std=c++17", "-O1", "-ffp-contract=off", "-D" + GUARD, "-w"]
 
